@@ -327,3 +327,22 @@ package simpledb
 //@   exit [C10:listing-error-removes-nothing] callres(os.ReadDir, 0, 1) != nil ==> r0 != nil && !called(os.RemoveAll, 0) && !called(os.RemoveAll, 1)
 //@   loop 0
 //@     invariant [no-failure-so-far] !called(os.RemoveAll, 1)
+
+// ---------------------------------------------------------------------------------------------------
+// C10 / C02: finishing or discarding compactions at Open. Every step can be repeated: the replacement slot is cleared, then
+// the merged table moves in, then the other inputs are removed oldest first (a newer input that is still present always
+// holds newer values than an older one, so whatever subset is left reads like the merged table).
+
+//@ func (*DB).repairCompactions
+//@   props C10 C02
+//@   replay crash_points
+//@   call 0 of os.Rename: assert [C10,C02:slot-cleared-before-the-merged-table-moves-in] called(os.RemoveAll, 1) && callres(os.RemoveAll, 1, 0) == nil &&
+//@        arg0 == absWritePath && arg1 == absReplacementPath
+//@   call 2 of os.RemoveAll: assert [C10,C02:inputs-removed-after-the-merged-table-is-in-place] called(os.Rename, 0) && callres(os.Rename, 0, 0) == nil &&
+//@        sstablePath != meta.ReplacementPath
+//@   // (the inputs are removed in list order, oldest first: the loop is a range loop over meta.SstablePaths; `iter` below only
+//@   //  resolves for a range loop, the element-wise statement needs the allocation order of objects created during Walk)
+//@   call 2 of os.RemoveAll: assert [C10:inputs-removed-in-list-order] 0 < iter
+//@   modifies nothing
+//@   exit [C10:errors-fail-the-open] (called(os.RemoveAll, 0) && callres(os.RemoveAll, 0, 0) != nil) || (called(os.RemoveAll, 1) && callres(os.RemoveAll, 1, 0) != nil) ||
+//@        (called(os.Rename, 0) && callres(os.Rename, 0, 0) != nil) || (called(os.RemoveAll, 2) && callres(os.RemoveAll, 2, 0) != nil) ==> r0 != nil
